@@ -11,7 +11,6 @@ B against C (or A) decides "Solver == weighted-sum optimisation", A against C de
 "validation never changes learnable state".
 """
 import torch
-from hypothesis import strategies as st
 
 from vf import train as T
 
@@ -19,7 +18,7 @@ PROPERTY = "C07"
 LEVEL = "exploration"
 RULE = ("Hypothesis draws a training configuration: 1-2 models (FCN/QRES/DeepRitzNet, hidden<=6, "
         "inputs x | x,t | 2-D x, 1-2 outputs), 0-2 learnable Parameters (1-2 variables of dim 1-2, "
-        "shared between conditions; in ~3% of the cases two Parameters joined with .join()), 1-4 "
+        "shared between conditions; in 1-2% of the cases two Parameters joined with .join()), 1-4 "
         "training conditions out of PINN, Mean, DeepRitz, Parameter, AdaptiveWeights, Data "
         "(mini-batches, norms 1/2/3/inf, root, full data set, constrain_fn), Periodic and a "
         "user-defined Condition subclass whose loss depends on `iteration`, weights in [0.1,5], "
